@@ -80,3 +80,35 @@ Definition spec_declaration (first : token) (rest : list token) : decl_result :=
       end
   | _ => DError
   end.
+
+(* ------------------------------------------------------------------ the {} rule of the css-syntax draft
+   (Editor's Draft, "consume a declaration", after the removal of "!important"):
+   "if decl's value contains a top-level simple block with an associated token of
+   <{-token>, and also contains any other non-<whitespace-token> value, return
+   nothing.  (That is, a top-level {}-block is only allowed as the entire value of
+   a non-custom property.)"   Custom properties are not distinguished by the
+   implementation (a TODO of parser.go): the rule is applied to every name. *)
+Definition is_curly_block (t : token) : bool :=
+  match t with TCurly _ _ => true | _ => false end.
+
+(* the value without its first {} block; None when it has none *)
+Fixpoint remove_first_block (l : list token) : option (list token) :=
+  match l with
+  | [] => None
+  | t :: r =>
+      if is_curly_block t then Some r
+      else match remove_first_block r with Some o => Some (t :: o) | None => None end
+  end.
+
+(* "contains a {} block and also any other non-whitespace value" *)
+Definition block_not_alone (value : list token) : bool :=
+  match remove_first_block value with
+  | Some others => negb (forallb wsc others)
+  | None => false
+  end.
+
+Definition spec_declaration_draft (first : token) (rest : list token) : decl_result :=
+  match spec_declaration first rest with
+  | DOk name v imp => if block_not_alone v then DError else DOk name v imp
+  | DError => DError
+  end.
